@@ -10,6 +10,7 @@ import json
 import random
 
 import core
+import workflow
 import projmodel
 from props import c04, c06
 
@@ -85,8 +86,11 @@ def run(ctx: core.Ctx) -> int:
                 r["detail"] = json.loads(r["detail"])
             except ValueError:
                 pass
+    # Workflow.tla: cross-command behaviours replayed on the real tool, abstract state compared after every command
+    wf = workflow.stage(ctx, ('C01.', 'crash'))
+    mc_viol = list(mc_viol) + wf["mc_violations"]
     return ctx.finish(
-        evaluations=len(events),
+        evaluations=len(events) + len(wf["events"]),
         distinct_nontrivial=len({e["label"] for e in events[:n_lint] if '"both", "i2": "both", "i3": "both", "inv": []' not in e["label"]})
         + len(events) - n_lint,
         rule="Lint.tla: 6 x 5 x 4 per-file information states x all 32 subsets of inventory defects (complete), each "
@@ -97,6 +101,8 @@ def run(ctx: core.Ctx) -> int:
 
 
 def replay(ctx: core.Ctx, path: str) -> int:
+    if str(json.load(open(path)).get("runner", "")).startswith("workflow:"):
+        return core.generic_replay(ctx, path)
     payload = json.load(open(path))
     ev = payload["event"]
     case = {"tid": 1, "p": ev["p"], "checks": ALL, "label": ev.get("label", ""), "seed": ctx.seed}
